@@ -181,6 +181,7 @@ type Backend struct {
 	nSASL    int
 	gates    map[string]*gate
 	openAll  bool
+	inflight int // callbacks that have begun and not ended
 	wireMark func() int64
 
 	mu sync.Mutex // unused; hub guards everything
@@ -197,6 +198,11 @@ func (b *Backend) SetWireMark(f func() int64) { b.wireMark = f }
 func (b *Backend) record(e Event) {
 	b.hub.mu.Lock()
 	e.Seq = len(b.events)
+	if e.Begin {
+		b.inflight++
+	} else if e.CB != "AuthMechanisms" && e.CB != "SASLNext" {
+		b.inflight--
+	}
 	if b.wireMark != nil {
 		e.WireMark = b.wireMark()
 	}
@@ -211,6 +217,9 @@ func (b *Backend) Events() []Event {
 	defer b.hub.mu.Unlock()
 	return append([]Event(nil), b.events...)
 }
+
+// InflightLocked is the number of callbacks that have begun and not returned.
+func (b *Backend) InflightLocked() int { return b.inflight }
 
 // NEventsLocked: number of events (hub locked).
 func (b *Backend) NEventsLocked() int { return len(b.events) }
